@@ -24,11 +24,16 @@ func genC03(seed uint64, tier string) *plan.Plan {
 	p.Cluster.ReplicaCount = R
 	p.Cluster.Partitions = partitionsFor(r, 6)
 	p.Cluster.TableSize = Pick(r, 256, 512, 2048, 1<<20)
-	p.Cluster.RoutingPushMs = Pick(r, 300, 1000, 3000)
+	p.Cluster.RoutingPushMs = Pick(r, 300, 1000)
 	p.Cluster.BalancerMs = Pick(r, 100, 500)
 	p.Cluster.ClientReadTimeoutMs = Pick(r, 500, 3000)
 	p.Cluster.ReadRepair = false
 	yields(p, r)
+	if r.Bool(500) {
+		// wide hand-over window: fragments of several tables (one table moves per balancer round)
+		p.Cluster.TableSize = 256
+		p.Cluster.BalancerMs = 500
+	}
 	nkeys := r.Range(20, 120)
 	nwriters := r.Range(1, 3)
 	bound := int64(60000 + 13000*p.Cluster.Partitions)
@@ -54,6 +59,36 @@ func genC03(seed uint64, tier string) *plan.Plan {
 			}
 		}
 		load.Clients = append(load.Clients, sc)
+	}
+	// keys owned by the controller: overwritten and deleted right after each membership event,
+	// i.e. while their partition may have a new owner that has not received the data yet
+	nhot := r.Range(4, 12)
+	hl := plan.Script{ID: 30, Kind: "ctl"}
+	for i := 0; i < nhot; i++ {
+		for rep := 0; rep <= r.Intn(3); rep++ {
+			vn++
+			hl.Ops = append(hl.Ops, plan.Op{K: "put", Key: fmt.Sprintf("h%d", i), Val: fmt.Sprintf("v%d", vn), Tag: "cc"})
+		}
+	}
+	load.Clients = append(load.Clients, hl)
+	hot := func(ops *[]plan.Op) {
+		for j, nj := 0, r.Range(2, 8); j < nj; j++ {
+			k := fmt.Sprintf("h%d", r.Intn(nhot))
+			t, m := entry()
+			d := int64(Pick(r, 0, 100, 2000))
+			switch r.Intn(4) {
+			case 0:
+				vn++
+				*ops = append(*ops, plan.Op{K: "put", Key: k, Val: fmt.Sprintf("v%d", vn), Tag: t, M: m, D: d}, plan.Op{K: "del", Key: k, Tag: t, M: m}, plan.Op{K: "get", Key: k, Tag: "cc"})
+			case 1:
+				*ops = append(*ops, plan.Op{K: "del", Key: k, Tag: t, M: m, D: d}, plan.Op{K: "get", Key: k, Tag: "cc"})
+			case 2:
+				vn++
+				*ops = append(*ops, plan.Op{K: "put", Key: k, Val: fmt.Sprintf("v%d", vn), Tag: t, M: m, D: d}, plan.Op{K: "get", Key: k, Tag: "emb", M: 0})
+			default:
+				*ops = append(*ops, plan.Op{K: "get", Key: k, Tag: t, M: m, D: d}, plan.Op{K: "del", Key: k, Tag: "cc"}, plan.Op{K: "get", Key: k, Tag: t, M: m})
+			}
+		}
 	}
 	work := plan.Phase{Name: "handover", Yields: true}
 	for w := 0; w < nwriters; w++ {
@@ -83,7 +118,7 @@ func genC03(seed uint64, tier string) *plan.Plan {
 	}
 	sig := ""
 	joinsOnly := true
-	for e, nev := 0, r.Range(1, 4); e < nev; e++ {
+	for e, nev := 0, r.Range(1, 3); e < nev; e++ {
 		ctl.Ops = append(ctl.Ops, plan.Op{K: "ctl.sleep", Dur: int64(Pick(r, 0, 5, 100, 1500))})
 		nrun := len(running)
 		x := r.Intn(100)
@@ -96,6 +131,10 @@ func genC03(seed uint64, tier string) *plan.Plan {
 			running[members] = true
 			members++
 			sig += "J"
+			// the routing table with the new owner arrives a little after the join; the data follows at
+			// the next balancer rounds (one storage table per round)
+			ctl.Ops = append(ctl.Ops, plan.Op{K: "ctl.sleep", Dur: int64(Pick(r, 30, 60, 120))})
+			hot(&ctl.Ops)
 		default:
 			// every asserted key must have its backups before a member departs
 			ctl.Ops = append(ctl.Ops, plan.Op{K: "ctl.wait_stable", Dur: bound + 3*quiet, Dur2: quiet, Tag: "pre-leave"})
@@ -117,6 +156,10 @@ func genC03(seed uint64, tier string) *plan.Plan {
 				sig += "C"
 			}
 		}
+		if r.Bool(500) {
+			ctl.Ops = append(ctl.Ops, plan.Op{K: "ctl.sleep", Dur: int64(Pick(r, 50, 300, 1000))})
+			hot(&ctl.Ops)
+		}
 		if r.Bool(300) {
 			ctl.Ops = append(ctl.Ops, plan.Op{K: "ctl.wait_stable", Dur: bound + 3*quiet, Dur2: quiet})
 			sig += "s"
@@ -128,6 +171,9 @@ func genC03(seed uint64, tier string) *plan.Plan {
 	for k := 0; k < nkeys; k++ {
 		bs.Ops = append(bs.Ops, plan.Op{K: "ctl.copies", Key: fmt.Sprintf("k%d", k)})
 	}
+	for i := 0; i < nhot; i++ {
+		bs.Ops = append(bs.Ops, plan.Op{K: "ctl.copies", Key: fmt.Sprintf("h%d", i)})
+	}
 	basePh.Clients = []plan.Script{bs}
 	st := plan.Phase{Name: "stabilise", Clients: []plan.Script{{ID: 30, Kind: "ctl", Ops: []plan.Op{
 		{K: "ctl.wait_stable", Dur: bound + 3*quiet, Dur2: quiet, Tag: "final"},
@@ -137,6 +183,10 @@ func genC03(seed uint64, tier string) *plan.Plan {
 	vs := plan.Script{ID: 31, Kind: "ctl"}
 	for k := 0; k < nkeys; k++ {
 		key := fmt.Sprintf("k%d", k)
+		vs.Ops = append(vs.Ops, plan.Op{K: "ctl.get_all", Key: key}, plan.Op{K: "ctl.copies", Key: key})
+	}
+	for i := 0; i < nhot; i++ {
+		key := fmt.Sprintf("h%d", i)
 		vs.Ops = append(vs.Ops, plan.Op{K: "ctl.get_all", Key: key}, plan.Op{K: "ctl.copies", Key: key})
 	}
 	vs.Ops = append(vs.Ops, plan.Op{K: "scan", Tag: "emb", M: -1 - r.Intn(8), Count: Pick(r, 0, 3, 50)})
@@ -156,6 +206,7 @@ func oracleC03(p *plan.Plan, his []plan.Rec, res *plan.Result) {
 	type kstate struct {
 		vals     map[string]bool
 		ack      string
+		ever        map[string]bool // every value ever written to the key
 		slowDelete  bool // the last acknowledged Delete was blocked for longer than the member-to-member read time-out
 		baseBackups int  // backup copies before the first membership event
 		rewritten   bool // written again during the hand-over phase
@@ -168,6 +219,16 @@ func oracleC03(p *plan.Plan, his []plan.Rec, res *plan.Result) {
 		return ks[k]
 	}
 	stable, lastEvent, opsInWindow := false, int64(-1), 0
+	// membership events since the cluster last stabilised: with two or more, a fragment can arrive on a
+	// member that has meanwhile been replaced as owner and is not listed as a previous owner yet
+	// (known finding "overlapping-membership-changes")
+	pendingEvents := 0
+	overlap := func() string {
+		if pendingEvents >= 2 {
+			return " overlapping-membership-changes"
+		}
+		return ""
+	}
 	var snap *plan.Snapshot
 	for i := range recs {
 		r := &recs[i]
@@ -181,6 +242,7 @@ func oracleC03(p *plan.Plan, his []plan.Rec, res *plan.Result) {
 				res.Status, res.Reason = "inconclusive", "member start failed: "+r.Err
 			}
 			lastEvent = r.TInv
+			pendingEvents++
 		case "ctl.wait_stable":
 			if r.Err != "" {
 				viol(res, "hand-over-not-completed", p.Variant, "strict stabilisation (%s) not reached within the bound: %s", r.Op.Tag, r.Err)
@@ -189,6 +251,7 @@ func oracleC03(p *plan.Plan, his []plan.Rec, res *plan.Result) {
 					stable = true
 				}
 				lastEvent = -1
+				pendingEvents = 0
 			}
 		case "ctl.snapshot":
 			snap = r.Snap
@@ -222,7 +285,18 @@ func oracleC03(p *plan.Plan, his []plan.Rec, res *plan.Result) {
 			} else {
 				st.vals[v], st.vals["?"+v] = true, true
 				res.Counters["oracle.indeterminate_writes"]++
+				rt := int64(p.Cluster.ClientReadTimeoutMs)
+				if rt == 0 {
+					rt = 3000
+				}
+				if r.Op.K == "del" && r.TRet-r.TInv >= rt*1e6 {
+					st.slowDelete = true // a blocked Delete that ended in a time-out may have been applied partially
+				}
 			}
+			if st.ever == nil {
+				st.ever = map[string]bool{}
+			}
+			st.ever[v] = true
 		case "ctl.copies":
 			if r.Phase == 1 {
 				st := get(r.Op.Key)
@@ -244,14 +318,15 @@ func oracleC03(p *plan.Plan, his []plan.Rec, res *plan.Result) {
 			case r.Err == "" && r.Has:
 				if !st.vals["="+r.Val] {
 					class := "stale-read-during-handover"
-					if st.ack == "" && len(keysOf(st.vals)) == 1 {
+					if (st.ack == "" && len(keysOf(st.vals)) == 1) || (st.slowDelete && st.vals[""] && st.ever["="+r.Val]) {
+						// an older version came back after a Delete
 						class = "deleted-key-resurrected"
 					}
 					viol(res, class, r.Op.Key+slowTag(st.slowDelete), "%s but the key may only hold %v; writes: %s", descRecT(r), keysOf(st.vals), writesOf(his, r.Op.Key))
 				}
 			case r.Err == plan.ENotFound:
 				if !st.vals[""] {
-					viol(res, "key-lost-during-handover", r.Op.Key, "%s but the key may only hold %v; writes: %s", descRecT(r), keysOf(st.vals), writesOf(his, r.Op.Key))
+					viol(res, "key-lost-during-handover", r.Op.Key+overlap(), "%s but the key may only hold %v; writes: %s", descRecT(r), keysOf(st.vals), writesOf(his, r.Op.Key))
 				}
 			default:
 				res.Counters["oracle.failed_reads"]++
@@ -295,7 +370,7 @@ func oracleC03(p *plan.Plan, his []plan.Rec, res *plan.Result) {
 					class := "wrong-final-value"
 					if v == "" {
 						class = "key-lost"
-					} else if st.ack == "" && len(keysOf(st.vals)) == 1 {
+					} else if (st.ack == "" && len(keysOf(st.vals)) == 1) || (st.slowDelete && st.vals[""] && st.ever[v]) {
 						class = "deleted-key-resurrected"
 					}
 					viol(res, class, r.Op.Key+slowTag(st.slowDelete), "Get(%s) through m%d returned %q, allowed %v; writes: %s", r.Op.Key, c.Member, v, keysOf(st.vals), writesOf(his, r.Op.Key))
